@@ -5,7 +5,9 @@ import gen
 
 COQ_DEPS = ['Lib/History_proofs.vo']
 LIBS = ['BensonGA', 'GRWSurface2018', 'XieGA2022', 'SalciccioliGA2012', 'PPY']
-MOLS = {'BensonGA': ['CC', 'CCO', 'CCCCCC', 'C1CO1', 'CC(C)C', 'C=CC', 'c1ccccc1', 'CC(=O)C', 'C/C=C\\C', 'CC=CC'],
+MOLS = {'BensonGA': ['CC', 'CCO', 'CCCCCC', 'C1CO1', 'CC(C)C', 'C=CC', 'c1ccccc1', 'CC(=O)C', 'C/C=C\\C', 'CC=CC',
+                     # two spellings of one fused aromatic: each must decompose as it does in a fresh process
+                     'C1(C)=CC2=CC=CC=C2C=C1', 'C1(C)=CC2C(C=C1)=CC=CC=2', 'OCC', 'C(O)C'],
         'PPY': ['CC', 'CCO', 'CCCCCC', 'c1ccccc1', 'CC(C)C'],
         'GRWSurface2018': ['[Pt]C([Pt])C([Pt])([Pt])C=O', 'C([Pt])C[Pt]', 'C([Pt])([Pt])C', 'OC([Pt])C'],
         'XieGA2022': ['[Ru]C([Ru])C([Ru])([Ru])C', 'CCC', 'C([Ru])C[Ru]', 'CC'],
@@ -27,6 +29,7 @@ def gen_history(rng, n, kind='random'):
     ops = []
     objs = {}
     decs = []
+    ests = []
 
     def load(obj, lib):
         objs[obj] = lib
@@ -61,6 +64,33 @@ def gen_history(rng, n, kind='random'):
         ops.append({'op': 'fingerprint', 'obj': 'B'})
         ops.append({'op': 'fingerprint', 'obj': 'C'})
         return ops, objs
+    if kind == 'deferred':
+        # estimate made right after its own decomposition, evaluated after ANOTHER molecule went through the same object
+        lib = rng.choice(LIBS)
+        load('D', lib)
+        a, b = rng.sample(MOLS[lib], 2)
+        dec('D', a)
+        ops.append({'op': 'estimate', 'obj': 'D', 'smiles': a, 'eid': 0})
+        dec('D', b)
+        for prop in ('s', 'g', 'h'):
+            ops.append({'op': 'evalest', 'obj': 'D', 'smiles': a, 'eid': 0, 'prop': prop, 'T': rng.choice([298.15, 500.0]), 'elements': prop != 'h'})
+        ops.append({'op': 'estimate', 'obj': 'D', 'smiles': b, 'eid': 1})
+        dec('D', a)
+        ops.append({'op': 'evalest', 'obj': 'D', 'smiles': b, 'eid': 1, 'prop': 's', 'T': 400.0, 'elements': True})
+        return ops, objs
+    if kind == 'spellings':
+        # two spellings of one species through ONE object, in both orders (for fused aromatics they decompose differently:
+        # whatever each gives in a fresh process it must give here)
+        load('P', 'BensonGA')
+        pair = rng.choice([('C1(C)=CC2=CC=CC=C2C=C1', 'C1(C)=CC2C(C=C1)=CC=CC=2'), ('c1ccc2cc3ccccc3cc2c1', 'C1=CC2=CC3=CC=CC=C3C=C2C=C1'),
+                           ('Oc1cccc2ccccc12', 'OC1=CC=CC2=CC=CC=C12')])
+        if rng.random() < 0.5:
+            pair = pair[::-1]
+        for smi in pair:
+            dec('P', smi)
+            ev('P', smi, 'h')
+        dec('P', pair[0])
+        return ops, objs
     if kind == 'uq':
         # several estimates with different group sets on ONE library object, then standard errors
         lib = rng.choice(UQ_LIBS)
@@ -79,12 +109,23 @@ def gen_history(rng, n, kind='random'):
             obj = '%s#%d' % (lib, rng.randint(0, 1))
             load(obj, lib)
             decs = [d for d in decs if d[0] != obj]
+            ests[:] = [e for e in ests if e[0] != obj]
         elif k < 0.42 or not decs:
             obj = rng.choice(sorted(objs))
             dec(obj, rng.choice(MOLS[objs[obj]]))
-        elif k < 0.84:
+        elif k < 0.72:
             obj, smi = rng.choice(decs)
             ev(obj, smi)
+        elif k < 0.78:
+            # the estimate is made now and evaluated later (possibly after other molecules were decomposed with the object)
+            obj, smi = rng.choice(decs)
+            eid = len(ests)
+            ests.append((obj, smi, eid))
+            ops.append({'op': 'estimate', 'obj': obj, 'smiles': smi, 'eid': eid})
+        elif k < 0.84 and ests:
+            obj, smi, eid = rng.choice(ests)
+            ops.append({'op': 'evalest', 'obj': obj, 'smiles': smi, 'eid': eid, 'prop': pick_prop(rng, objs[obj]),
+                        'T': rng.choice([298.15, 400.0, 500.0, 750.0]), 'elements': rng.random() < 0.6})
         elif k < 0.92 and len(objs) >= 2:
             a, b = rng.sample(sorted(objs), 2)
             ops.append({'op': 'merge', 'obj': a, 'src': b})
@@ -132,6 +173,11 @@ def reference(tree, op):
         ops.append({'op': 'decompose', 'obj': x, 'smiles': op['smiles']})
     if op['op'] == 'eval':
         ops.append(dict(op, obj=x))
+    if op['op'] in ('estimate', 'evalest'):
+        ops.append({'op': 'decompose', 'obj': x, 'smiles': op['smiles']})
+        ops.append({'op': 'estimate', 'obj': x, 'smiles': op['smiles'], 'eid': 0})
+    if op['op'] == 'evalest':
+        ops.append(dict(op, obj=x, eid=0))
     if op['op'] == 'fingerprint':
         ops.append({'op': 'fingerprint', 'obj': x})
     # for a merge the recipe ends with that very merge: its own record (fingerprint or exception) is the reference
@@ -163,6 +209,8 @@ def run(ctx):
     hs = [gen_history(rng, rng.randint(2, ctx.n(14, 40))) for _ in range(ctx.n(12, 300))]
     hs += [gen_history(rng, 0, 'merge') for _ in range(ctx.n(4, 60))]
     hs += [gen_history(rng, 0, 'uq') for _ in range(ctx.n(2, 30))]
+    hs += [gen_history(rng, 0, 'deferred') for _ in range(ctx.n(3, 40))]
+    hs += [gen_history(rng, 0, 'spellings') for _ in range(ctx.n(3, 20))]
     with ThreadPoolExecutor(vlib.NCPU) as ex:
         runs = list(ex.map(lambda h: vlib.run_impl('history', {'cases': [{'ops': h[0]}]}, timeout=900), hs))
     # the single-operation references, each in a fresh process
@@ -182,15 +230,20 @@ def run(ctx):
         hist['histories'] += 1
         ctx.count(('hist', h), nontrivial=len(ops) > 2)
         last_dec = {}
+        made_after = {}
         trees = recipes(ops)
         for i, (o, x) in enumerate(zip(ops, outs)):
             hist['operations'] += 1
             hist['by_op'][o['op']] = hist['by_op'].get(o['op'], 0) + 1
             if o['op'] == 'decompose':
                 last_dec[o['obj']] = o['smiles']
+            if o['op'] == 'estimate':
+                made_after[o['eid']] = last_dec.get(o['obj'])
             ref = cache[ref_key(trees[i], o)]
             if not same(x, ref):
-                stale = o['op'] == 'eval' and o.get('elements') and last_dec.get(o['obj']) != o['smiles']
+                # the known finding: the elemental reference is the molecule decomposed last WHEN THE ESTIMATE WAS MADE
+                stale = (o['op'] == 'eval' and o.get('elements') and last_dec.get(o['obj']) != o['smiles']) or \
+                        (o['op'] == 'evalest' and o.get('elements') and made_after.get(o['eid']) != o['smiles'])
                 ctx.violate('elements-uses-last-decomposed' if stale else 'history:%s:%d' % (o['op'], h),
                             'the result of %s differs from the same operation in a fresh process%s'
                             % (o['op'], ' (elemental reference taken from the molecule decomposed last, not from the one the estimate is for)' if stale else ''),
